@@ -423,11 +423,11 @@ static ul f2(ul x, ul y) { return x * 31 + y; }
 def semantic_oracle(ck, hb, n_expr):
     r = ck.rng
     gens = [SemGen(r).make() for _ in range(n_expr)]
-    impl, _, _ = ck.run_impl(hb, [["E " + " ".join(t)] for t in gens], timeout=300)
+    impl, _, _ = ck.run_impl(hb, [["E " + " ".join(t)] for t in gens], timeout=300, env=ENV)
     pairs = []
     rejected = 0
     for toks, obs in zip(gens, impl):
-        m = re.match(r"ok T=\S+ P=(\S+) R=", obs[-1] if obs else "")
+        m = re.match(r"ok T=.* P=(\S+) R=", obs[-1] if obs else "")
         if not m:
             rejected += 1
             continue
@@ -567,30 +567,33 @@ def main(argv):
         ops = read_replay(ck.replay)
         model_ops = [o for o in ops if not o.startswith("S ")]
         if model_ops:
-            ck.correspond(hb, db, [model_ops], label="expr", ubsan_is_violation=UBRE)
+            ck.correspond(hb, db, [model_ops], label="expr", ubsan_is_violation=UBRE, env=ENV)
         progs = [o for o in ops if o.startswith("S ")]
         if progs and hb:
             run_programs(ck, hb, [unpct(o[2:]) for o in progs])
         ck.finish(META["level_text"])
     quick = ck.tier == "quick"
-    n = 250 if quick else 40000
+    n = 300 if quick else 40000
     hs = CORPUS + [gen_history(ck.rng) for _ in range(n)]
-    ck.correspond(hb, db, hs, label="expr", ubsan_is_violation=UBRE, timeout=600,
+    ck.correspond(hb, db, hs, label="expr", ubsan_is_violation=UBRE, timeout=600, env=ENV,
                   nontrivial=lambda h, obs: any(o.startswith("ok ") for o in obs))
     if hb:
-        progs = S_CORPUS + [gen_program(ck.rng) for _ in range(150 if quick else 20000)]
+        progs = S_CORPUS + [gen_program(ck.rng) for _ in range(200 if quick else 20000)]
         run_programs(ck, hb, progs)
-        semantic_oracle(ck, hb, 250 if quick else 6000)
+        semantic_oracle(ck, hb, 300 if quick else 6000)
     ck.finish(META["level_text"])
 
 
 UBRE = r"lang/(expr|printer|operator|token/(string|char|operator)Token)|utils/string\.cpp"
+# memory that the front end leaks on REJECTED input is not this property's business (C16 / C01):
+# LeakSanitizer reports at exit would be attributed to whatever history happened to be last
+ENV = {"ASAN_OPTIONS": "detect_leaks=0:abort_on_error=0:exitcode=66:allocator_may_return_null=1"}
 
 
 def run_programs(ck, hb, progs):
     """whole programs through parser_t: only the harness oracles (the statement printers are not modelled)"""
     hs = [["S " + pct(p)] for p in progs]
-    impl, ora, notes = ck.run_impl(hb, hs, timeout=900, ubsan_is_violation=UBRE)
+    impl, ora, notes = ck.run_impl(hb, hs, timeout=900, ubsan_is_violation=UBRE, env=ENV)
     ok = sum(1 for o in impl if o and o[-1].startswith("ok "))
     ck.cov["counters"]["programs"] = len(progs)
     ck.cov["counters"]["programs_accepted"] = ok
@@ -601,14 +604,14 @@ def run_programs(ck, hb, progs):
     for i, o in enumerate(ora):
         if o:
             what = "; ".join(sorted(set(unpct(x)[:300] for x in o)))
-            ck.oracle_violation(what, "S " + pct(shrink_program(ck, hb, progs[i])), name="prog")
+            ck.oracle_violation(what, "S " + pct(shrink_program(ck, hb, progs[i], o[0][:24])), name="prog")
 
 
-def shrink_program(ck, hb, prog):
-    """drop whole top-level statements / shorten while the oracle still fires"""
+def shrink_program(ck, hb, prog, kind):
+    """drop whole top-level statements while the same oracle still fires"""
     def fails(p):
-        _, ora, _ = ck.run_impl(hb, [["S " + pct(p)]], timeout=60, ubsan_is_violation=UBRE)
-        return bool(ora[0])
+        _, ora, _ = ck.run_impl(hb, [["S " + pct(p)]], timeout=60, ubsan_is_violation=UBRE, env=ENV)
+        return bool(ora[0]) and ora[0][0][:24] == kind
     parts = [x for x in re.split(r"(?<=;)\s+", prog) if x]
     budget = 40
     i = 0
